@@ -846,7 +846,7 @@ func (h *History) apply(i int, o HOp) {
 		// the database-wide series file: rebuild the on-disk index of every
 		// partition from its segments, as the background compaction does once
 		// 128K series have accumulated in memory (both index types share it)
-		if len(sim.Shards) > 0 {
+		if len(sim.Shards) > 0 && os.Getenv("VERIF_NO_SFILE_COMPACT") == "" && os.Getenv("VERIF_SFILE_SKIP_OP") != fmt.Sprint(i) {
 			if sh := sim.Store.Shard(sim.Shards[0]); sh != nil {
 				if sf, err := sh.SeriesFile(); err == nil && sf != nil {
 					for _, part := range sf.Partitions() {
